@@ -109,6 +109,7 @@ func checkC02(p *Program, r *Report) {
 	checkVLenWidth(p, r, "C02.vlen-width")
 	checkKeepMask(p, r)
 	checkEncodeEach(p, r)
+	checkEncodeIndependent(p, r, "C02.encode-independent")
 }
 
 // checkRangeRouting: index.RangeGet -> SlimTrie.RangeGet; RangeGet and Search
@@ -440,4 +441,47 @@ func checkEncodeEach(p *Program, r *Report) {
 		bad = append(bad, "no append into the result found")
 	}
 	r.Check(len(bad) == 0, "value bytes built by "+shortFn(V), p.Pos(V.Pos()), fmt.Sprintf("%d append(s), each Encode(value at the loop index), unconditional", nApp), strings.Join(dedupStrings(sortStr(bad)), "; "))
+}
+
+// checkEncodeIndependent (shared by C01/C02): the builder keeps the result of
+// every Encode call until all values are encoded (the keep mask compares
+// neighbours, the leaf array packs them afterwards), so the slices must be
+// independent: for every Encoder implementation of package encode, what
+// Encode returns is memory allocated by that call (or its own argument, for an
+// identity encoder) — never memory the encoder object holds and re-uses.
+func checkEncodeIndependent(p *Program, r *Report, rule string) {
+	encs := encoderTypes(p)
+	r.Rule(rule, "E1", "Encode returns memory of its own, not a buffer the encoder keeps", len(encs))
+	for _, n := range encs {
+		enc := encMethod(p, n, "Encode")
+		if enc == nil || len(enc.Params) < 2 {
+			r.Unk("encode."+n.Obj().Name()+".Encode", "", "method not found")
+			continue
+		}
+		r.Func(shortFn(enc))
+		a := newPts(p)
+		recv := a.seedObj(kShared, "ENCODER(receiver)")
+		arg := a.seedObj(kParam, "VALUE(argument)")
+		a.reachFn(enc)
+		a.add(enc.Params[0], recv)
+		a.add(enc.Params[1], arg)
+		a.solveWithClosures()
+		held := map[*aobj]bool{}
+		a.reachableObjs(oset{recv: true}, func(o *aobj, _ string) bool {
+			held[o] = true
+			return true
+		})
+		var bad []string
+		for _, ret := range returnsOf(enc) {
+			if len(ret.Results) == 0 {
+				continue
+			}
+			for o := range a.val(ret.Results[0]) {
+				if held[o] && o != arg {
+					bad = append(bad, fmt.Sprintf("the result returned at %s may be %s, memory the encoder object holds: every slice the builder keeps then shows the last value encoded", p.Pos(ret.Pos()), o))
+				}
+			}
+		}
+		r.Check(len(bad) == 0, "encode."+n.Obj().Name()+".Encode returns independent memory", p.Pos(enc.Pos()), "result not reachable from the receiver", strings.Join(dedupStrings(sortStr(bad)), "; "))
+	}
 }
